@@ -132,12 +132,12 @@ def replay(ctx, case, kind=None, where=None):
 def run(ctx):
     for case in wc.load_corpus(ctx, PID):
         replay(ctx, case['case'] if 'case' in case else case)
-    stream_hdr(ctx, ctx.scale(1500, 30000))
+    stream_hdr(ctx, ctx.scale(4000, 40000))
     stream_mime(ctx, ctx.scale(2000, 40000))
     stream_status(ctx, ctx.scale(2000, 40000))
     rng = ctx.rng
     scns = []
-    for _ in range(ctx.scale(120, 2500)):
+    for _ in range(ctx.scale(400, 5000)):
         s = wc.gen_scenario(rng, big_p=0.25)
         for r in s['runs']:
             if rng.random() < 0.9:
@@ -145,7 +145,7 @@ def run(ctx):
         scns.append(s)
     base.stream_recorder(ctx, scns, pid=PID)
     from engines import warc_client
-    warc_client.stream_client(ctx, ctx.scale(60, 1500), PID)
+    warc_client.stream_client(ctx, ctx.scale(200, 3000), PID)
 
 
 def search(ctx):
